@@ -375,7 +375,122 @@ def r07_7(chk):
     chk.floor("R07.7", 5, "methods of _LeafDefn")
 
 
+NUMERIC_FIELDS = {"init", "lower", "upper", "value"}
+
+
+def _truth_tests(test):
+    """names tested by their truth value in `test`: bare `x`, `not x`, operands of and/or"""
+    if isinstance(test, ast.Name):
+        return [(test.id, True)]
+    if isinstance(test, ast.Attribute):
+        return [(norm(test), True)]
+    if isinstance(test, ast.UnaryOp) and isinstance(test.op, ast.Not) and isinstance(test.operand, (ast.Name, ast.Attribute)):
+        return [(norm(test.operand), False)]
+    if isinstance(test, ast.BoolOp):
+        return [t for v in test.values for t in _truth_tests(v)]
+    return []
+
+
+def r07_8(chk):
+    chk.rule("R07.8", "zero is a value: where a parameter rule's numeric field (init / lower / upper / value) decides whether that field is USED, it is tested with `is not None`, never by its truth value -- a branch length an optimiser left on its 0.0 bound is exported as init=0.0, and a truthiness test silently keeps the new function's default instead")
+    sites = [("evolve/parameter_controller.py", "_LikelihoodParameterController.set_param_rule"), ("recalculation/scope.py", "_LeafDefn.assign_all"), ("recalculation/definition.py", "_InputDefn.__init__"), ("recalculation/definition.py", "_InputDefn.update_from_calculator")]
+    n = 0
+    for rel, q in sites:
+        m = chk.repo.module(rel)
+        try:
+            fn = m.func(q)
+        except Exception:
+            raise AnalysisError(f"{rel}::{q} not found (anchor moved)")
+        fields = NUMERIC_FIELDS & set(params_of(fn))
+        # bounds read from a setting object: <x>.lower / <x>.upper / <x>.value
+        fields |= {norm(a) for a in walk_no_nested(fn) if isinstance(a, ast.Attribute) and a.attr in NUMERIC_FIELDS and isinstance(a.ctx, ast.Load) and not (isinstance(a.value, ast.Name) and a.value.id == "self")}
+        bad = []
+        good = 0
+        for node in walk_no_nested(fn):
+            if isinstance(node, ast.Compare) and isinstance(node.left, (ast.Name, ast.Attribute)) and norm(node.left) in fields and any(isinstance(o, (ast.Is, ast.IsNot)) for o in node.ops):
+                good += 1
+            branches = []
+            if isinstance(node, ast.If):
+                branches = [(node.test, node.body, node.orelse)]
+            elif isinstance(node, ast.IfExp):
+                branches = [(node.test, [node.body], [node.orelse])]
+            elif isinstance(node, ast.BoolOp) and isinstance(node.op, ast.Or) and not isinstance(getattr(node, "_parent_assert", None), ast.Assert):
+                # `init or default` picks the default for 0.0
+                for v in node.values[:-1]:
+                    if isinstance(v, ast.Name) and v.id in fields and not _inside_assert(fn, node) and not _is_test(fn, node):
+                        bad.append((node, v.id, f"`{norm(node)}` replaces a zero {v.id} by the alternative"))
+            for test, body, orelse in branches:
+                for name, positive in _truth_tests(test):
+                    if name not in fields:
+                        continue
+                    arm = body if positive else orelse
+                    uses = [x for st in arm for x in ast.walk(st) if isinstance(x, (ast.Name, ast.Attribute)) and norm(x) == name and isinstance(x.ctx, ast.Load) and not isinstance(st, ast.Assert)]
+                    # `x and y < x`: the comparison in the same test is a use as well
+                    uses += [x for cmp_ in ast.walk(test) if isinstance(cmp_, ast.Compare) and not any(isinstance(o, (ast.Is, ast.IsNot)) for o in cmp_.ops) for x in ast.walk(cmp_) if isinstance(x, (ast.Name, ast.Attribute)) and norm(x) == name] if positive else []
+                    if uses:
+                        bad.append((node, name, f"`{norm(test)}` selects the branch that uses `{name}` by its truth value"))
+        k = key(m, q, "numeric rule fields selected by `is not None`")
+        n += 1
+        if bad:
+            node, name, why = bad[0]
+            chk.violation("R07.8", k, m.loc(node), f"{why}: {name}=0.0 (a legitimate value, e.g. a length on its lower bound) is treated as absent")
+        else:
+            chk.ok("R07.8", k, m.loc(fn), f"{good} identity test(s) against None on {sorted(fields)}; no truthiness selection", nontrivial=bool(good))
+    chk.floor("R07.8", 2, "set_param_rule and assign_all test their numeric fields against None")
+
+
+def _inside_assert(fn, node):
+    return any(isinstance(a, ast.Assert) and any(x is node for x in ast.walk(a)) for a in walk_no_nested(fn))
+
+
+def _is_test(fn, node):
+    return any(isinstance(i, (ast.If, ast.IfExp, ast.While)) and any(x is node for x in ast.walk(i.test)) for i in walk_no_nested(fn))
+
+
+def r07_9(chk):
+    chk.rule("R07.9", "refresh propagation is unconditional: in ParameterController._updateIntermediateValues every definition that was updated marks ALL its clients as changed -- on every path from `defn.update()` to the next definition; a definition can change what its clients must see (the scope -> setting index) without any of its `values` objects changing, so no shortcut may skip the marking")
+    m = chk.repo.module("recalculation/scope.py")
+    q = "ParameterController._updateIntermediateValues"
+    fn = m.func(q)
+    g = build(fn)
+    outer = [st for st in walk_no_nested(fn) if isinstance(st, ast.For) and norm(st.iter) == "self.defns"]
+    if len(outer) != 1:
+        raise AnalysisError(f"{q}: the loop over self.defns was not found")
+    outer = outer[0]
+    dv = norm(outer.target)
+    upd = [st for st in ast.walk(outer) if isinstance(st, ast.Expr) and isinstance(st.value, ast.Call) and norm(st.value.func) == f"{dv}.update"]
+    marks = [st for st in ast.walk(outer) if isinstance(st, ast.For) and norm(st.iter) == f"{dv}.clients"]
+    if not upd:
+        raise AnalysisError(f"{q}: {dv}.update() was not found")
+    k = key(m, q, "clients marked after every update")
+    if not marks:
+        chk.violation("R07.9", k, m.loc(upd[0]), f"no loop over {dv}.clients marks the clients as changed")
+    else:
+        mk = marks[0]
+        cv = norm(mk.target)
+        adds = [st for st in mk.body if isinstance(st, ast.Expr) and isinstance(st.value, ast.Call) and norm(st.value.func) == "self._changed.add" and norm(st.value.args[0]) == f"id({cv})"]
+        mnodes = [n_ for st in marks for n_ in g.stmt_nodes(st)]
+        unodes = g.stmt_nodes(upd[0])
+        heads = [n_ for n_ in g.stmt_nodes(outer)]
+        bad = None
+        for u in unodes:
+            starts = [b for b, kd in u.succ if kd == "n"]
+            seen = g.reachable(starts, blocked=mnodes, kinds=("n",))
+            for h in heads + [g.exit]:
+                if id(h) in seen:
+                    bad = g._path(seen, h)
+        if bad is not None:
+            chk.violation("R07.9", k, m.loc(upd[0]), f"a path from `{dv}.update()` reaches the next definition without marking {dv}.clients: {g.show_path(bad)}; the values computed from this definition (Q, psubs, likelihood) stay stale")
+        elif not adds or len(mk.body) != len(adds):
+            chk.violation("R07.9", k, m.loc(mk), f"the loop over {dv}.clients does not add every client unconditionally (`self._changed.add(id({cv}))`)")
+        else:
+            chk.ok("R07.9", k, m.loc(upd[0]), "every normal path from update() passes the marking loop, which adds each client")
+    chk.floor("R07.9", 1, "one refresh loop")
+
+
 def run(chk):
+    r07_9(chk)
+    r07_8(chk)
     r07_7(chk)
     r07_6(chk)
     r07_5(chk)
